@@ -29,15 +29,47 @@ type vfC11Kind struct {
 	producer bool
 	dynamic  bool
 	dynInput bool // dynamic exchange that declares StreamResult.InputSchema
+	both     bool // the state type implements ProducerState AND ExchangeState
 }
 
-var vfC11Kinds = []vfC11Kind{
-	{name: "producer", producer: true},
-	{name: "exchange"},
-	{name: "dyn-producer", producer: true, dynamic: true},
-	{name: "dyn-exchange", dynamic: true},
-	{name: "dyn-exchange+inputschema", dynamic: true, dynInput: true},
+// vfC11KindList: the state of the "*-both" kinds implements both stream
+// interfaces. A dynamic method then runs as a producer (ProducerState is
+// tested first at init and on the pipe); a static registration runs in the
+// registered mode. The static "*-both" kinds are thorough-only.
+func vfC11KindList() []vfC11Kind {
+	ks := []vfC11Kind{
+		{name: "producer", producer: true},
+		{name: "exchange"},
+		{name: "dyn-producer", producer: true, dynamic: true},
+		{name: "dyn-exchange", dynamic: true},
+		{name: "dyn-exchange+inputschema", dynamic: true, dynInput: true},
+		{name: "dyn-both-interfaces", producer: true, dynamic: true, both: true},
+	}
+	if venum.Thorough() {
+		ks = append(ks,
+			vfC11Kind{name: "producer-both-interfaces", producer: true, both: true},
+			vfC11Kind{name: "exchange-both-interfaces", both: true},
+		)
+	}
+	return ks
 }
+
+// VfC11Both is a scripted state implementing ProducerState, ExchangeState and
+// StreamCanceller at once.
+type VfC11Both struct{ S VfScript }
+
+func (p *VfC11Both) Produce(ctx context.Context, out *OutputCollector, cc *CallContext) error {
+	return p.S.run("produce", nil, out, cc)
+}
+func (p *VfC11Both) Exchange(ctx context.Context, in arrow.RecordBatch, out *OutputCollector, cc *CallContext) error {
+	return p.S.run("exchange", in, out, cc)
+}
+func (p *VfC11Both) OnCancel(ctx context.Context, cc *CallContext) error {
+	vfEvents = append(vfEvents, VfEvent{What: "cancel", Method: cc.Method, Pos: p.S.Pos})
+	return nil
+}
+
+func init() { RegisterStateType(&VfC11Both{}) }
 
 type vfC11TurnDef struct {
 	name     string
@@ -103,6 +135,9 @@ func vfC11Server(k vfC11Kind, header, initLog bool, turns []VfTurn) *Server {
 	s := NewServer()
 	mkState := func(base int64) interface{} {
 		sc := VfScript{Name: k.name, Turns: append([]VfTurn(nil), turns...), Base: base}
+		if k.both {
+			return &VfC11Both{S: sc}
+		}
 		if k.producer {
 			return &VfProducer{S: sc}
 		}
@@ -157,6 +192,7 @@ func TestVerif_C11(t *testing.T) {
 	defer venum.Finish(t)
 
 	turnDefs := vfC11Turns()
+	vfC11Kinds := vfC11KindList()
 	inputs := vfC11Inputs()
 	// script length bound: 3 (quick); thorough: 4 for producers (so that batch
 	// limit 3 is crossed), 3 for exchange kinds
